@@ -687,6 +687,154 @@ Definition reopen (fuel : nat) (db : list (bytes * bytes)) (root : bytes) : node
 
 End Store.
 
+(* ---- lazy loading: the operations on a trie with unloaded (hash) nodes ------- *)
+
+(* Trie.resolveHash: Database.node + mustDecodeNode; None = MissingNodeError *)
+Definition resolve (db : list (bytes * bytes)) (h : bytes) : option node :=
+  match assoc db h with
+  | Some blob => match decode_node decode_fuel blob with DOk n => Some n | _ => None end
+  | None => None
+  end.
+
+(* tryGet with the hashNode case; outer None = MissingNodeError / out of fuel *)
+Fixpoint lget (fuel : nat) (db : list (bytes * bytes)) (n : node) (key : nibbles) : option (option bytes) :=
+  match fuel with
+  | O => None
+  | S f =>
+    match n with
+    | Empty => Some None
+    | Val v => Some (Some v)
+    | Short k c => if key_mismatch k key then Some None else lget f db c (skipn (length k) key)
+    | Full cs =>
+      match key with
+      | [] => Some None
+      | i :: r => lget f db (nth (N.to_nat i) cs Empty) r
+      end
+    | HashN h => match resolve db h with None => None | Some rn => lget f db rn key end
+    end
+  end.
+
+(* insert with the hashNode case *)
+Fixpoint linsert (fuel : nat) (db : list (bytes * bytes)) (n : node) (key : nibbles) (value : node)
+  : option (bool * node) :=
+  match fuel with
+  | O => None
+  | S f =>
+    match key with
+    | [] => Some (match n with
+                  | Val _ => (negb (val_eqb n value), value)
+                  | _ => (true, value)
+                  end)
+    | k0 :: krest =>
+      match n with
+      | Short k c =>
+        let m := prefix_len key k in
+        if Nat.eqb m (length k) then
+          match linsert f db c (skipn m key) value with
+          | None => None
+          | Some (dirty, nn) => Some (if dirty then (true, Short k nn) else (false, n))
+          end
+        else
+          let b1 := set_nth empty17 (N.to_nat (nth m k 0)) (insert_nil (skipn (S m) k) c) in
+          let b2 := set_nth b1 (N.to_nat (nth m key 0)) (insert_nil (skipn (S m) key) value) in
+          Some (if Nat.eqb m 0 then (true, Full b2) else (true, Short (firstn m key) (Full b2)))
+      | Full cs =>
+        match linsert f db (nth (N.to_nat k0) cs Empty) krest value with
+        | None => None
+        | Some (dirty, nn) => Some (if dirty then (true, Full (set_nth cs (N.to_nat k0) nn)) else (false, n))
+        end
+      | Empty => Some (true, Short key value)
+      | Val _ => Some (false, n)
+      | HashN h =>
+        match resolve db h with
+        | None => None
+        | Some rn =>
+          match linsert f db rn key value with
+          | None => None
+          | Some (dirty, nn) => Some (if dirty then (true, nn) else (false, rn))
+          end
+        end
+      end
+    end
+  end.
+
+(* the reduction of a full node with one child left; the child is resolved to see whether it is a short node *)
+Definition lcollapse (db : list (bytes * bytes)) (cs : list node) : option node :=
+  match nonempty_idx cs with
+  | [pos] =>
+    let c := nth pos cs Empty in
+    if Nat.eqb pos 16 then Some (Short [16] c)
+    else match (match c with HashN h => resolve db h | _ => Some c end) with
+         | None => None
+         | Some (Short k2 c2) => Some (Short (N.of_nat pos :: k2) c2)
+         | Some _ => Some (Short [N.of_nat pos] c)
+         end
+  | _ => Some (Full cs)
+  end.
+
+Fixpoint ldelete (fuel : nat) (db : list (bytes * bytes)) (n : node) (key : nibbles) : option (bool * node) :=
+  match fuel with
+  | O => None
+  | S f =>
+    match n with
+    | Short k c =>
+      let m := prefix_len key k in
+      if (m <? length k)%nat then Some (false, n)
+      else if Nat.eqb m (length key) then Some (true, Empty)
+      else
+        match ldelete f db c (skipn (length k) key) with
+        | None => None
+        | Some (dirty, ch) =>
+          Some (if negb dirty then (false, n)
+                else match ch with
+                     | Short k2 c2 => (true, Short (k ++ k2) c2)
+                     | _ => (true, Short k ch)
+                     end)
+        end
+    | Full cs =>
+      match key with
+      | [] => Some (false, n)
+      | k0 :: krest =>
+        match ldelete f db (nth (N.to_nat k0) cs Empty) krest with
+        | None => None
+        | Some (dirty, nn) =>
+          if negb dirty then Some (false, n)
+          else match lcollapse db (set_nth cs (N.to_nat k0) nn) with
+               | None => None
+               | Some r => Some (true, r)
+               end
+        end
+      end
+    | Val _ => Some (true, Empty)
+    | Empty => Some (false, Empty)
+    | HashN h =>
+      match resolve db h with
+      | None => None
+      | Some rn =>
+        match ldelete f db rn key with
+        | None => None
+        | Some (dirty, nn) => Some (if dirty then (true, nn) else (false, rn))
+        end
+      end
+    end
+  end.
+
+(* Trie.TryUpdate / TryDelete / TryGet on a lazily loaded trie *)
+Definition l_update (fuel : nat) (db : list (bytes * bytes)) (t : node) (key value : bytes) : option node :=
+  let k := keybytes_to_hex key in
+  match value with
+  | [] => match ldelete fuel db t k with Some (_, n) => Some n | None => None end
+  | _ => match linsert fuel db t k (Val value) with Some (_, n) => Some n | None => None end
+  end.
+Definition l_delete (fuel : nat) (db : list (bytes * bytes)) (t : node) (key : bytes) : option node :=
+  match ldelete fuel db t (keybytes_to_hex key) with Some (_, n) => Some n | None => None end.
+Definition l_get (fuel : nat) (db : list (bytes * bytes)) (t : node) (key : bytes) : option (option bytes) :=
+  lget fuel db t (keybytes_to_hex key).
+
+(* trie.New(root, db): only the root node is loaded *)
+Definition l_open (db : list (bytes * bytes)) (root : bytes) : option node :=
+  if list_eqb root empty_root then Some Empty else resolve db root.
+
 (* ---- core/types/derive_sha.go ------------------------------------------- *)
 
 (* rlp.Encode(uint) *)
@@ -893,6 +1041,41 @@ Definition m_apply (m : fmap) (o : kvop) : fmap :=
     end.
 Definition m_run (ops : list kvop) : fmap := fold_left m_apply ops (fun _ => None).
 
+(* ---- secure_trie.go: every key is hashed first ------------------------------ *)
+
+Section Secure.
+Variable H : bytes -> bytes.
+Definition s_update (t : node) (key value : bytes) : node := t_update t (H key) value.   (* SecureTrie.TryUpdate *)
+Definition s_delete (t : node) (key : bytes) : node := t_delete t (H key).               (* SecureTrie.TryDelete *)
+Definition s_get (t : node) (key : bytes) : option bytes := t_get t (H key).             (* SecureTrie.TryGet *)
+Definition s_apply (t : node) (o : kvop) : node :=
+  match o with
+  | KUpdate k v => s_update t k v
+  | KDelete k => s_delete t k
+  end.
+Definition s_run (ops : list kvop) : node := fold_left s_apply ops Empty.
+End Secure.
+
+(* a history on a lazily loaded trie; None = a node was missing (or the fuel ran out) *)
+Definition l_apply (fuel : nat) (db : list (bytes * bytes)) (t : node) (o : kvop) : option node :=
+  match o with
+  | KUpdate k v => l_update fuel db t k v
+  | KDelete k => l_delete fuel db t k
+  end.
+
+Fixpoint l_run (fuel : nat) (db : list (bytes * bytes)) (ops : list kvop) (t : node) : option node :=
+  match ops with
+  | [] => Some t
+  | o :: r => match l_apply fuel db t o with Some t' => l_run fuel db r t' | None => None end
+  end.
+
+(* DeriveSha as a history: item i is stored under rlp(i) *)
+Fixpoint derive_ops (i : N) (items : list bytes) : list kvop :=
+  match items with
+  | [] => []
+  | x :: r => KUpdate (rlp_uint i) x :: derive_ops (i + 1) r
+  end.
+
 (* ---- correspondence runner ---------------------------------------------- *)
 From VF.Lib Require Import Keccak.
 From Coq Require Import Uint63 ZArith.
@@ -1024,29 +1207,50 @@ Definition db_subset (a b : list (bytes * bytes)) : bool :=
 
 Record rstate := mkR { r_trie : node; r_db : list (bytes * bytes); r_ok : bool }.
 
+Definition lazy_fuel : nat := 400.
+
+(* the trie of the runner is lazy: after a re-open only the nodes the
+   operations touch are loaded; observations that walk the whole trie
+   (iteration, proofs, commit) expand it first *)
 Definition run_op (H : bytes -> bytes) (secure : bool) (s : rstate) (o : op) : rstate :=
-  let t := r_trie s in
+  let lt := r_trie s in
+  let db := r_db s in
   let hk (k : bytes) := if secure then H k else k in
-  let chk (b : bool) := mkR t (r_db s) (r_ok s && b) in
+  let ex := fun _ : unit => expand lazy_fuel db lt in
+  let chk (b : bool) := mkR lt db (r_ok s && b) in
   match o with
-  | OUpdate k v => mkR (t_update t (hk k) v) (r_db s) (r_ok s)
-  | ODelete k => mkR (t_delete t (hk k)) (r_db s) (r_ok s)
-  | OGet k r => chk (obytes_eqb (t_get t (hk k)) r)
-  | OHash root => chk (list_eqb (root_hash H t) root)
-  | OIter kvs => chk (list_eqb_by kv_eqb (iterate t) kvs)
-  | ONodeIter start es => chk (list_eqb_by entry_eqb (node_iter_from H t start) es)
+  | OUpdate k v =>
+    match l_update lazy_fuel db lt (hk k) v with
+    | Some lt' => mkR lt' db (r_ok s)
+    | None => mkR lt db false
+    end
+  | ODelete k =>
+    match l_delete lazy_fuel db lt (hk k) with
+    | Some lt' => mkR lt' db (r_ok s)
+    | None => mkR lt db false
+    end
+  | OGet k r => chk (match l_get lazy_fuel db lt (hk k) with Some g => obytes_eqb g r | None => false end)
+  | OHash root => chk (list_eqb (root_hash H lt) root)
+  | OIter kvs => chk (list_eqb_by kv_eqb (iterate (ex tt)) kvs)
+  | ONodeIter start es => chk (list_eqb_by entry_eqb (node_iter_from H (ex tt) start) es)
   | OProve k fl proof r =>
-    chk (list_eqb_by list_eqb (prove H t k fl) proof
-         && vres_eqb (verify_proof H (root_hash H t) k proof) r)
+    chk (list_eqb_by list_eqb (prove H (ex tt) k fl) proof
+         && vres_eqb (verify_proof H (root_hash H lt) k proof) r)
   | OVerify root k proof r => chk (vres_eqb (verify_proof H root k proof) r)
   | OVerifyDb root k pdb r =>
     chk (vres_eqb (verify_proof_db (S (length pdb)) pdb root (keybytes_to_hex k)) r)
   | OCommit root nodes =>
-    let db' := db_merge (r_db s) (commit H t) in
-    mkR t db' (r_ok s && list_eqb (root_hash H t) root && db_subset db' nodes && db_subset nodes db')
+    let t := ex tt in
+    let db' := db_merge db (commit H t) in
+    mkR lt db' (r_ok s && list_eqb (root_hash H lt) root && list_eqb (root_hash H t) root
+                && db_subset db' nodes && db_subset nodes db')
   | OReopen =>
-    let t' := reopen 200 (r_db s) (root_hash H t) in
-    mkR t' (r_db s) (r_ok s && node_eqb t' t)
+    match l_open db (root_hash H lt) with
+    | Some lt' => let t := ex tt in
+                  mkR lt' db (r_ok s && node_eqb (expand lazy_fuel db lt') t
+                               && node_eqb (reopen lazy_fuel db (root_hash H lt)) t)
+    | None => mkR lt db false
+    end
   | ODerive items root => chk (list_eqb (derive_sha H items) root)
   | OKeccak data h => chk (list_eqb (keccak256 data) h)
   end.
